@@ -494,6 +494,11 @@ package cache
 //@   assert at call (*middleware/cache.Cache).additionalAnswer#1: lastret("middleware/cache.cnameChaseDepth") < maxCnameChaseDepth && calls("middleware/cache.boundRequestToEntryLifetime") >= 1
 //@   assert at call middleware/cache.withCnameChaseDepth#1: arg1 == lastret("middleware/cache.cnameChaseDepth") + 1
 //@   assert at return#1: !result && calls("(*middleware/cache.CacheEntry).GetRateLimiter") == 0
+//@   # C12: when the alias chase on a HIT ran the request tree over its budget, what is written is the failure built
+//@   # from the CLIENT'S request (which carries the client's OPT, so the Extended DNS Error has somewhere to live),
+//@   # with the policy's code and text -- not the OPT-less message rebuilt from the cache entry
+//@   assert at call (middleware.ResponseWriter).WriteMsg#1: calls("(*middleware/cache.Cache).additionalAnswer") >= 1 && lastret("(*middleware/cache.Cache).additionalAnswer").Rcode == 2 && lastret("middleware.RecursionWorkEnforcementError") != nil ==> calls("dnsutil.SetRcodeWithEDE") == 1 && arg1 == lastret("dnsutil.SetRcodeWithEDE")
+//@   assert at call dnsutil.SetRcodeWithEDE#1: arg0 == req && arg1 == 2 && arg3 == lastret("middleware.RecursionWorkEDE") && arg4 == lastret("middleware.RecursionWorkEDE", 1)
 //@
 //@ func (*Cache).handleCacheHit$1
 //@   abstract
